@@ -14,7 +14,7 @@ import (
 func unstable(j *basis.Job, fnKey string) bool {
 	if j.Opts.Ptr && (j.Schema.Name == "mmix" || j.Schema.Name == "uni") {
 		// pointer receivers make per-iteration copies of message/union records escape to the heap
-		return strings.Contains(fnKey, ".MarshalBebopTo") || strings.Contains(fnKey, ".Size") || strings.Contains(fnKey, ".MarshalBebop")
+		return strings.Contains(fnKey, ".MarshalBebopTo") || strings.Contains(fnKey, ".Size") || strings.Contains(fnKey, ".MarshalBebop") || strings.Contains(fnKey, ".EncodeBebop")
 	}
 	return false
 }
@@ -91,19 +91,40 @@ func (r *Run) genVerify(schemaOK func(*basis.Schema) bool, opts []basis.Options,
 
 func nonMap(s *basis.Schema) bool { return !hasTag(s, "maps") }
 
+// C08 (encode half): writer failures surface; a nil return means exactly the reference bytes were written.
+func checkC08(r *Run) error {
+	err := r.genVerify(nonMap, r.optsFor(false), []string{"EncodeBebop"}, nil)
+	if err != nil {
+		return err
+	}
+	// the latch itself: ErrorWriter/ErrorReader and the stream helpers of iohelp
+	r.byteTheory = true
+	e, err := r.loadEngine(r.Repo, "./iohelp")
+	if err != nil {
+		return err
+	}
+	err = r.verify(e, []string{iohelpPkg}, Selection{FuncFilter: func(k string) bool {
+		return strings.Contains(k, "ErrorWriter") || strings.Contains(k, "ErrorReader") || (!strings.Contains(k, "Bytes") && (strings.Contains(k, ".Write") || strings.Contains(k, ".Read")))
+	}}, false)
+	r.Explanation = "Typestate argument over ghost writer state: every generated EncodeBebop returns a non-nil error whenever the underlying io.Writer reported a failure during the call (object invariant failed(w) ==> ew.Err != nil of iohelp.ErrorWriter, preserved by every stream helper and by nested encoders, which share the wrapper), and when it returns nil the bytes accepted by the writer are exactly the reference encoding (= MarshalBebop's trace by C02). The failure point and error value are universally quantified by the assumed io.Writer contract. Decode side (DecodeBebop under reader faults): iohelp stream readers latch every short read (proved); the generated decoders are covered by the SAFE sweep when registered."
+	r.Coverage["not_covered"] = "generated DecodeBebop under reader faults (pending); map-typed fields"
+	return err
+}
+
 func init() {
+	registry["C08"] = checkC08
 	registry["C02"] = checkC02
 	registry["C03"] = checkC03
 	registry["C09"] = checkC09
 }
 
-var encMethods = []string{"Size", "MarshalBebopTo", "MarshalBebop"}
+var encMethods = []string{"Size", "MarshalBebopTo", "MarshalBebop", "EncodeBebop"}
 
 // C02: all encoders emit the same bytes and Size() is their exact length.
 func checkC02(r *Run) error {
 	err := r.genVerify(nonMap, r.optsFor(false), encMethods, nil)
 	r.Explanation = "For every record of the schema basis: Size() returns the schema-derived size; MarshalBebopTo returns it, advances the ghost high-water mark by exactly it, its ghost trace is the reference encoding whatever the buffer held before, and its frame is buf[0:size] (nothing outside the first Size() bytes is written); MarshalBebop returns a fresh buffer of that length holding the same trace. Proved per function, for all values, over go/ssa with loop invariants derived from the schema description."
-	r.Coverage["not_covered"] = "EncodeBebop's byte stream (LATCH/ENC over writers) is decided under C08; map-typed fields"
+	r.Coverage["not_covered"] = "map-typed fields"
 	return err
 }
 
